@@ -47,6 +47,9 @@ func main() {
 			g.genC06(*scale, om)
 		} else {
 			g.genC03(*scale, om)
+			if om == nil {
+				g.genSpecialSrc(*scale)
+			}
 		}
 		cases = g.cases
 		if *ids != "" {
